@@ -393,14 +393,28 @@ class Conversation:
             self.events.append((tag, "fail:%s" % res))
             if fault is None and res == "not successful" and status in ("infeasible",):
                 self.stats["failures_checked"] += 1
-                st, val, _ = reference(op, bools)
+                st, val, _w = reference(op, bools)
                 self.stats["ref_solves"] += 1
                 if st == "optimal":
+                    # Whose fault?  A witness that is feasible in the very request EAO sent convicts the peer
+                    # (HiGHS' presolve does call feasible MIPs infeasible), not EAO.
+                    k = rec.get("call") if rec else None
+                    cv = None
+                    if k in self.requests:
+                        prob, xv = self.requests[k]
+                        try:
+                            xv.save_value(np.asarray(_w, float))
+                            cv = max([float(np.max(np.atleast_1d(c.violation()), initial=0)) for c in prob.constraints] or [0.0])
+                        except Exception:
+                            cv = None
                     if (self.plan.get("solver") or "").upper() in FIRST_ORDER:
                         self.stats["inconclusive"] += 1
+                    elif cv is not None and cv <= 1e-6 * (1 + float(np.abs(_w).max(initial=0))):
+                        self.stats["peer_false_infeasible"] = self.stats.get("peer_false_infeasible", 0) + 1
+                        self.events.append((tag, "peer-false-infeasible"))
                     else:
-                        self.viol("failure-reported-but-feasible", "optimize() reports '%s' (peer status %s) but the problem has a feasible point (verified witness, value %r)"
-                                  % (res, status, val), "not-successful")
+                        self.viol("failure-reported-but-feasible", "optimize() reports '%s' (peer status %s) but the problem has a feasible point (verified witness, value %r) "
+                                  "which is not feasible in the request EAO sent (violation %r)" % (res, status, val, cv), "not-successful")
                 elif st == "infeasible":
                     self.probes["true_infeasible_reported"] += 1
             else:
